@@ -252,21 +252,8 @@ func histOnce(kill, kmode bool, s scenario, injects []string, want map[string]in
 		t = "MULTI"
 	}
 	tgt := ""
-	if kmode { // the model with node kinds also says what the link's target holds
-		switch old.kind {
-		case "link":
-			tgt = " target=" + readState(dir+".target")
-		case "dangling":
-			tgt = " target=" + readState(dir+".missing")
-		default:
-			tgt = " target=absent"
-		}
-		if old.kind == "dir" { // os.Rename refuses a directory itself (EEXIST); were it to ask the kernel, the errno would depend on the file system
-			for _, e := range []string{"EISDIR", "EEXIST", "ENOTEMPTY"} {
-				sq = strings.ReplaceAll(sq, "rename tmp dst!"+e, "rename tmp dst!DIR")
-				res = strings.ReplaceAll(res, "errno:"+e, "errno:DIR")
-			}
-		}
+	if kmode {
+		tgt = kindsSuffix(old, dir, &sq, &res)
 	}
 	if !kill {
 		if res == "" {
@@ -275,6 +262,25 @@ func histOnce(kill, kmode bool, s scenario, injects []string, want map[string]in
 		return fmt.Sprintf("seq=%s res=%s dst=%s tmp=%s reader=%s%s%s%s", sq, res, fileState(dst), t, rs, tgt, note, targetCheck(dir, old)), note != ""
 	}
 	return fmt.Sprintf("seq=%s dst=%s tmp=%s reader=%s%s%s%s", sq, fileState(dst), t, rs, tgt, note, targetCheck(dir, old)), note != ""
+}
+
+// kindsSuffix: what the lines judged by the model with node kinds (Model/SafeFileKinds.lean) report in addition — the state
+// of the link's target — and the canonical name of "the destination is a directory" (os.Rename refuses a directory itself
+// with EEXIST; were it to ask the kernel, the errno would depend on the file system)
+func kindsSuffix(old oldSpec, dir string, sq, res *string) string {
+	if old.kind == "dir" {
+		for _, e := range []string{"EISDIR", "EEXIST", "ENOTEMPTY"} {
+			*sq = strings.ReplaceAll(*sq, "rename tmp dst!"+e, "rename tmp dst!DIR")
+			*res = strings.ReplaceAll(*res, "errno:"+e, "errno:DIR")
+		}
+	}
+	switch old.kind {
+	case "link":
+		return " target=" + readState(dir+".target")
+	case "dangling":
+		return " target=" + readState(dir+".missing")
+	}
+	return " target=absent"
 }
 
 // shardOf: enumerated streams are split over C14_SHARDS generator calls (the seed of a call carries its shard number)
